@@ -27,6 +27,14 @@ def batches(ctx):
     out = [(f"containers/exhaustive-depth-{depth}", rh.all_histories(small, depth), 4, [D, C, S, M, R])]
     if not quick:
         out.append(("containers/18-letters-depth-4", rh.all_histories(a, 4), 4, [D, C, S, M, R]))
+    # split(): components created, found, refused (automatic name taken), dropped in every order
+    setup = [rh.dom(0, D, "a", 7), rh.dom(1, D, "b", 7), rh.inv(2, 0)]
+    a = [rh.cplx(3, C, [2, 0, "+", 2, 0, 1], "()+...", n) for n in (None, "c2", "X")]
+    a += [rh.cplx(4, C, [2, 0], "()", n) for n in (None, "c1", "c3")]
+    a += [rh.cplx(4, C, [2, 0, 1], "...", None), rh.cplx(4, C, [0, 1, "+", 2], "(.+)", None)]
+    a += [rh.split(5, 3), rh.split(5, 4), rh.split(3, 3), rh.drop(3), rh.drop(4), rh.drop(5), rh.drop(6), rh.turns(3, 1)]
+    hs = [setup + h for h in rh.all_histories(a, 3 if quick else 4)]
+    out.append(("split/exhaustive-depth-%d" % (3 if quick else 4), hs, 7, [C, D], len(setup)))
     n, ln = (300, 40) if quick else (5000, 100)
     out.append(("all-classes/random", [rh.random_history(rng, ln) for _ in range(n)], rh.NSLOTS, rh.ALL))
     # drop-heavy random histories
